@@ -72,6 +72,36 @@ def netObs (kd : ClientKind) (rt : RouteKind) (t : ElemTy) (plen : Nat) (xs : Li
 
 def showRaw (r : Nat × Bytes) : String := toString r.1 ++ " " ++ hexOfBytes r.2
 
+/-- `cap` / `capq`: the frame a client entry point writes (id zeroed) and, for the frame at base
+misalignments 0..7, whether the borrowing route borrows (b) or copies (c). -/
+def capObs (op idx client kind c k plen n p : String) : Unit × String :=
+  let bad (idx : String) := ((), idx ++ " bad-op")
+  -- the frame the client helper writes (id zeroed) and, for the frame at base misalignments 0..7,
+  -- whether the borrowing route borrows (b) or copies (c)
+  let path? : Option Bytes :=
+    if op = "capq" then unhex plen
+    else plen.toNat?.map fun l => if l = 0 then [] else 0x2f :: List.replicate (l - 1) 0x63
+  match tyOf c k, path?, n.toNat?, unhex p with
+  | some t, some path, some n, some p =>
+    let kind? : Option ClientKind :=
+      if kind = "bulk" then some .bulk else if kind = "aligned" then some .aligned
+      else if kind = "serde" then some .serde else none
+    match kind? with
+    | some kd =>
+      if p.length ≠ n * t.width then bad idx
+      else
+        -- client token: sync | syncp | async | asyncp   (p = the entry point without a timeout)
+        let C := if client = "sync" ∨ client = "syncp" then F.syncClient else F.asyncClient
+        let timeout := client = "sync" ∨ client = "async"
+        let m := clientRequest F C kd timeout t 0 path (chunks t.width n p)
+        let flag (mis : Nat) : Char :=
+          match sliceRefHandler F t m.header.bodyFormat (mis + 48 + path.length) m.body with
+          | .called i => if i.isBorrowed then 'b' else 'c'
+          | _ => 'x'
+        ((), joinSp [idx, hexOfBytes m.toVec, String.ofList ((List.range 8).map flag)])
+    | none => bad idx
+  | _, _, _, _ => bad idx
+
 def step (_ : Unit) (ws : List String) : Unit × String :=
   let bad (idx : String) := ((), idx ++ " bad-op")
   match ws with
@@ -193,30 +223,61 @@ def step (_ : Unit) (ws : List String) : Unit × String :=
       if p.length ≠ n * t.width then bad idx
       else ((), joinSp [idx, allDecoders t fmt (encodeTypedRaw t n p)])
     | _, _, _, _ => bad idx
-  | ["cap", idx, client, kind, c, k, plen, n, p] =>
-    -- the frame the client helper writes (id zeroed) and, for the frame at base misalignments 0..7,
-    -- whether the borrowing route borrows (b) or copies (c)
-    match tyOf c k, plen.toNat?, n.toNat?, unhex p with
-    | some t, some plen, some n, some p =>
-      let kind? : Option ClientKind :=
-        if kind = "bulk" then some .bulk else if kind = "aligned" then some .aligned
-        else if kind = "serde" then some .serde else none
-      match kind? with
-      | some kd =>
-        if p.length ≠ n * t.width then bad idx
-        else
-          let path : Bytes := if plen = 0 then [] else 0x2f :: List.replicate (plen - 1) 0x63
-          -- client token: sync | syncp | async | asyncp   (p = the entry point without a timeout)
-          let C := if client = "sync" ∨ client = "syncp" then F.syncClient else F.asyncClient
-          let timeout := client = "sync" ∨ client = "async"
-          let m := clientRequest F C kd timeout t 0 path (chunks t.width n p)
-          let flag (mis : Nat) : Char :=
-            match sliceRefHandler F t m.header.bodyFormat (mis + 48 + path.length) m.body with
-            | .called i => if i.isBorrowed then 'b' else 'c'
-            | _ => 'x'
-          ((), joinSp [idx, hexOfBytes m.toVec, String.ofList ((List.range 8).map flag)])
-      | none => bad idx
+  | ["capt", idx, _client] => ((), idx ++ " err")
+  | ["capr", idx, _client, _kind, c, k, c2, k2, n2, p2] =>
+    -- the peer answers with a regular array of element type 2; the bulk client decodes as type 1
+    match tyOf c k, tyOf c2 k2, n2.toNat?, unhex p2 with
+    | some t, some t2, some n2, some p2 =>
+      if p2.length ≠ n2 * t2.width then bad idx
+      else ((), idx ++ " " ++ showN showElems (decodeTypedSlice F BEVE t (encodeTypedRaw t2 n2 p2)))
     | _, _, _, _ => bad idx
+  | ["abld", idx, c, k, mis, _wire, q, n, p] =>
+    match tyOf c k, mis.toNat?, unhex q, n.toNat?, unhex p with
+    | some t, some mis, some q, some n, some p =>
+      if p.length ≠ n * t.width then bad idx
+      else
+        let body := encodeAlignedRaw t n p (baseOffset F.baseTerms q.length)
+        let off := match parseAligned t body with
+          | .ok a => toString (48 + q.length + a.dataOffset)
+          | .error _ => "?"
+        let fl := match sliceRefHandler F t BEVE (mis + 48 + q.length) body with
+          | .called i => if i.isBorrowed then "borrowed" else "copied"
+          | _ => "unserved"
+        ((), joinSp [idx, hexOfBytes body, "off", off, fl])
+    | _, _, _, _, _ => bad idx
+  | "hseq" :: idx :: kind :: wrap :: c :: k :: q :: cnt :: rest =>
+    match tyOf c k, unhex q, cnt.toNat? with
+    | some t, some q, some cnt =>
+      if rest.length ≠ 4 * cnt ∨ (kind ≠ "ref" ∧ kind ≠ "slice") then bad idx
+      else
+        let rec go (ws : List String) (fuel : Nat) (acc : List String) : Option (List String) :=
+          match fuel, ws with
+          | 0, _ => some acc.reverse
+          | fuel + 1, hk :: fmt :: mis :: b :: tl =>
+            match fmt.toNat?, mis.toNat?, unhex b with
+            | some fmt, some mis, some body =>
+              let out := if kind = "ref" then sliceRefHandler F t fmt (mis + 48 + q.length) body
+                         else sliceHandler F t fmt body
+              let s := match out with
+                | .reject ec => "reject " ++ toString ec
+                | .err _ => "err Beve"
+                | .called i =>
+                  let flag := if wrap = "1" ∨ kind ≠ "ref" then "-" else if i.isBorrowed then "b" else "c"
+                  let res :=
+                    if hk = "same" ∨ hk = "slow" then hexOfBytes (bodyTypedSlice t i.elems)
+                    else if hk = "bytes" then hexOfBytes (encodeTypedRaw ⟨2, 0⟩ i.elems.flatten.length i.elems.flatten)
+                    else if hk = "err" then "err 4096"
+                    else "panic"
+                  "called " ++ flag ++ " " ++ res
+              go tl fuel (s :: acc)
+            | _, _, _ => none
+          | _, _ => none
+        match go rest cnt [] with
+        | some obs => ((), idx ++ " " ++ " | ".intercalate obs)
+        | none => bad idx
+    | _, _, _ => bad idx
+  | ["cap", idx, client, kind, c, k, plen, n, p] => capObs "cap" idx client kind c k plen n p
+  | ["capq", idx, client, kind, c, k, plen, n, p] => capObs "capq" idx client kind c k plen n p
   | ["net", idx, _server, _client, kind, route, c, k, plen, n, p] =>
     match tyOf c k, plen.toNat?, n.toNat?, unhex p with
     | some t, some plen, some n, some p =>
